@@ -1739,6 +1739,28 @@ class ListProxy(list):
             return self._parameter.names.keys()
         return _named_objs(self).keys()
 
+    def _name_of(self, object):
+        """
+        The name under which the given one of the objects is known: that of
+        the very object, else (the names and the list of a restored copy,
+        e.g. an unpickled one, may hold equal but distinct objects) that of
+        an equal object of the same type.
+        """
+        names = self._parameter.names
+        for k, v in names.items():
+            if v is object:
+                return k
+        for k, v in names.items():
+            if type(v) is type(object) and v == object:
+                return k
+        return None
+
+    def __reduce_ex__(self, protocol):
+        # a copy (or pickle) of the view is a plain list of the objects; the
+        # default would rebuild it through the overridden extend(), i.e. add
+        # the objects to the Parameter a second time
+        return (list, (list(self),))
+
     def pop(self, *args):
         index = args[0] if args else -1
         if isinstance(index, int):
@@ -1746,10 +1768,9 @@ class ListProxy(list):
                 super().pop(index)
                 object = self._parameter._objects.pop(index)
                 if self._parameter.names:
-                    self._parameter.names = {
-                        k: v for k, v in self._parameter.names.items()
-                        if v is not object
-                    }
+                    names = dict(self._parameter.names)
+                    names.pop(self._name_of(object), None)
+                    self._parameter.names = names
             return object
         if self and not self._parameter.names:
             raise ValueError(
@@ -1770,10 +1791,9 @@ class ListProxy(list):
             self._parameter._objects.remove(object)
             if self._parameter.names:
                 copy = self._parameter.names.copy()
+                copy.pop(self._name_of(stored), None)
                 self._parameter.names.clear()
-                self._parameter.names.update({
-                    k: v for k, v in copy.items() if v is not stored
-                })
+                self._parameter.names.update(copy)
 
     def update(self, objects, **items):
         if not self._parameter.names:
